@@ -1,7 +1,8 @@
 """C57 - the ready-made USB serial (CDC-ACM) device carries bytes both ways and answers CDC requests.
 
 DUT: the real `USBSerialDevice(bus=UTMIInterface(), idVendor, idProduct, manufacturer/product/serial strings,
-max_packet_size in {8,16,32,64})` (12 MHz full-speed tables), inside a 10-line harness wrapper that either leaves the
+max_packet_size in {8,16,32,64,256,512})` (12 MHz full-speed tables; imported through
+`luna.full_devices` or `luna.gateware.usb.devices.acm`; `connect` high from the start or after 20..120 cycles low), inside a 10-line harness wrapper that either leaves the
 `rx` / `tx` streams to the testbench ("separate": the testbench produces the tx stream and consumes the rx stream) or
 wires rx -> tx the way luna's own acm_serial example does ("loopback", with a harness `pause` input gating both
 valid and ready).
@@ -51,6 +52,13 @@ Oracle (independent; nothing is taken from luna):
     answered by data or NAK; after the drain nothing is missing.
   * the notification endpoint answers NAK; nothing is transmitted for other addresses.
   * while `connect` is high the device presents itself to the host (UTMI term_select high = full-speed pull-up).
+  * the endpoints the descriptor announces (direction, number, wMaxPacketSize - notification endpoint included) are the
+    stream endpoints the device really built (constructor arguments captured by the harness registry); tokens for
+    endpoint numbers that are not announced get no answer.
+  * rx `last` is set exactly on the final byte of an OUT packet shorter than the announced wMaxPacketSize (this is what
+    makes the receive endpoint's max_packet_size observable; luna's own loopback example relies on it).
+  * SET_LINE_CODING-like requests the statement does not pin down (wLength 0/1/6/8/16/64, recipient device / endpoint /
+    other): accepted or refused, but consistently (data ACKed -> DATA1 ZLP status, otherwise STALL at the status IN).
 
 Mechanism names describe the symptom.  Three history patterns have their own names because they are defects of the
 unchanged tree (findings/C57.md, known_findings.d/C57.json):
@@ -68,9 +76,9 @@ Deviations from DESIGN section 7: descriptors are judged by meaning instead of a
 the `connect` -> pull-up check were added.  DESIGN section-10 mutation "STALL handler claims class requests too" is an
 equivalent mutant (StallOnlyRequestHandler never drives `claim`, the multiplexer's fallback handler does the stalling).
 
-Not judged: rx/tx `first`/`last` flags (C13), exact NAK conditions and latencies (C11/C13), content of GET_STATUS, the
-device-qualifier answer, reserved-type requests, class requests with a recipient other than interface, SET_LINE_CODING
-with wLength other than 7, behaviour with data in flight across a bus reset / SET_CONFIGURATION (the streams are drained
+Not judged: rx `first` and the tx flags (C13), behaviour while `connect` is low, reserved-type requests (sent, any answer
+accepted, the session must go on), bInterval beyond 1..255, IAD / call-management presence, exact NAK conditions and latencies (C11/C13), content of GET_STATUS, the
+device-qualifier answer, behaviour with data in flight across a bus reset / SET_CONFIGURATION (the streams are drained
 first, so a device that flushes its buffers there and one that keeps them both pass), timing other than the 60 MHz clock
 with luna's 12 MHz full-speed tables (USBSerialDevice builds its USBDevice internally).
 """
@@ -96,10 +104,13 @@ REQUIRED_BINS = ["mps_8", "mps_16", "mps_32", "mps_64", "mode_separate", "mode_l
                  "in_zlp", "in_full_packet", "in_short_packet", "in_nak", "in_garbage_retry", "in_lost_ack_duplicate",
                  "unacked_in_then_out_same_number", "unacked_in_then_control", "unacked_in_then_foreign_ack",
                  "slc_while_out_endpoint_naks", "notify_poll", "sof", "foreign_address", "old_address_probe", "sink_blocked", "clear_halt",
-                 "reconf_set_configuration", "reconf_bus_reset", "descriptor_reread_in_data_phase", "class_0x20_device_to_host"]
+                 "reconf_set_configuration", "reconf_bus_reset", "descriptor_reread_in_data_phase", "class_0x20_device_to_host",
+                 "mps_256", "mps_512", "rx_last_seen", "unannounced_endpoint_probe", "slc_variant_wlength_0", "slc_variant_with_data",
+                 "reserved_type_request", "connect_low_first", "import_full_devices", "import_acm"]
 REQUIRED_EVENTS = ["sessions", "descriptors_validated", "strings_validated", "control_transfers", "stalls_judged",
                    "set_line_codings_judged", "out_packets_acked", "rx_bytes_checked", "tx_bytes_accepted", "in_packets_accepted",
-                   "in_bytes_checked", "notify_naks", "device_packets_seen", "drains_completed", "cycles_monitored", "cycles_presented_to_host"]
+                   "in_bytes_checked", "notify_naks", "device_packets_seen", "drains_completed", "cycles_monitored", "cycles_presented_to_host",
+                   "rx_last_flags_judged", "built_endpoints_compared", "slc_variants_judged"]
 ASSUMPTIONS = [
     "legal host: one transaction at a time, waits for the answer or the response window, bulk traffic only while configured",
     "host timing: 2-8 idle cycles between transactions, ACK 1-4 cycles after a device packet, device answers within 40 cycles",
@@ -108,6 +119,10 @@ ASSUMPTIONS = [
     "descriptors are judged for meaning (USB 2.0 ch. 9, CDC 1.2), not for a byte image",
     "after a re-configuration the host restarts the toggles of both data endpoints at DATA0 [USB 2.0 9.1.1.5]",
     "the session stops at its first contradiction",
+    "rx `last` follows the documented stream semantics of the OUT endpoint: final byte of a packet shorter than wMaxPacketSize",
+    "max_packet_size 256 and 512 (the values the class docstring names) are run on the same full-speed timing; luna does not restrict them to high speed",
+    "the comparison descriptor <-> built endpoints reads the constructor arguments (_endpoint_number, _max_packet_size) of the real "
+    "USBStreamInEndpoint / USBStreamOutEndpoint objects; if they cannot be read the run is inconclusive, not held",
 ]
 TIMEOUT = {"quick": 3000, "thorough": 6 * 3600}
 
@@ -118,7 +133,10 @@ WORDS = ["LUNA", "USB-to-serial", "ACM", "Great Scott Gadgets", "x", "serial Ã©Ã
 def build(cfg):
     from amaranth import Elaboratable, Module, Signal
     from luna.gateware.interface.utmi import UTMIInterface
-    from luna.gateware.usb.devices.acm import USBSerialDevice
+    if cfg["import_path"] == "full_devices":
+        from luna.full_devices import USBSerialDevice          # the documented shortcut
+    else:
+        from luna.gateware.usb.devices.acm import USBSerialDevice
 
     utmi = UTMIInterface()
     dev = USBSerialDevice(bus=utmi, idVendor=cfg["vid"], idProduct=cfg["pid"], manufacturer_string=cfg["manufacturer"],
@@ -148,9 +166,11 @@ def build(cfg):
 
 
 def draw_config(rng):
-    mps = rng.choice([8, 8, 16, 32, 64, 64])
+    mps = rng.choice([8, 8, 16, 32, 64, 64, 256, 512, rng.choice([256, 512])])
     return {
         "mps": mps,
+        "import_path": rng.choice(["acm", "full_devices"]),
+        "connect_low_first": rng.choice([0, 0, 0, rng.randint(20, 120)]),
         "mode": rng.choice(["separate", "separate", "loopback"]),
         "vid": rng.choice([0x1209, 0x16D0, rng.randrange(1, 0x10000)]),
         "pid": rng.randrange(1, 0x10000),
@@ -168,7 +188,7 @@ def make_out_plan(rng, mps):
     """list of packet lengths (transfers cut into packets) and the byte string"""
     packets = []
     total = 0
-    budget = rng.choice([0, 40, 120, 200, 300, 300])
+    budget = rng.choice([0, 40, 120, 200, 300, 300]) if mps <= 64 else rng.choice([mps, mps + 1, 2 * mps + 3, 2 * mps - 1])
     while total < budget or not packets:
         n = rng.choice([0, 1, 2, mps - 1, mps, mps + 1, 2 * mps, 2 * mps + 1, 3 * mps, rng.randint(1, 4 * mps), rng.randint(1, 300)])
         n = min(n, max(budget - total, 0)) if budget else 0
@@ -188,7 +208,7 @@ def make_out_plan(rng, mps):
 def make_tx_plan(rng, mps):
     """list of [byte, last, gap]"""
     plan = []
-    budget = rng.choice([0, 30, 100, 200, 300, 300])
+    budget = rng.choice([0, 30, 100, 200, 300, 300]) if mps <= 64 else rng.choice([mps, mps + 1, 2 * mps + 3, 2 * mps - 1])
     gap_mode = rng.choice(["full", "full", "sparse", "bursty"])
     burst = 0
     while len(plan) < budget:
@@ -285,23 +305,43 @@ class Session:
     def monitor(self, b):
         dev = self.dev
         self.res.event("cycles_monitored")
-        if b.cycle > 16:
+        if self.connect_at is not None and b.cycle > self.connect_at + 16:
             # `connect` is held high by the harness: the device has to present itself (full-speed pull-up = UTMI TermSelect)
             if b.get(self.utmi.term_select):
                 self.res.event("cycles_presented_to_host")
             elif not self.failed:
                 self.viol("not_presented_to_host", "cycle %d: connect is asserted but UTMI term_select is low (no pull-up, a host never sees the device)" % b.cycle)
         if b.get(dev.rx.valid) and b.get(dev.rx.ready):
-            self.on_rx(b.get(dev.rx.payload))
+            self.on_rx(b.get(dev.rx.payload), b.get(dev.rx.last))
         if b.get(dev.tx.valid) and b.get(dev.tx.ready):
             self.src.append(b.get(dev.tx.payload))
             self.res.event("tx_bytes_accepted")
 
-    def on_rx(self, byte):
+    def expected_last(self, idx):
+        """rx `last` marks the final byte of an OUT packet shorter than the announced wMaxPacketSize (end of a host transfer)"""
+        if self.last_at is None or self.last_at[0] != len(self.out_packets):
+            pos, ends = 0, set()
+            for n in self.out_packets:
+                pos += n
+                if 0 < n < self.mps:
+                    ends.add(pos - 1)
+            self.last_at = (len(self.out_packets), ends)
+        return idx in self.last_at[1]
+
+    last_at = None
+
+    def on_rx(self, byte, last=None):
         if self.failed:
             return
         idx = len(self.rx_seen)
         self.rx_seen.append(byte)
+        if last is not None and idx < self.out_pos + self.out_inflight and byte == self.out_plan[idx]:
+            if bool(last) != self.expected_last(idx):
+                return self.viol("rx_last_flag_wrong", "rx beat %d has last=%d; it %s the final byte of an OUT packet shorter than wMaxPacketSize %d (packet sizes %s)"
+                                 % (idx, last, "is" if self.expected_last(idx) else "is not", self.mps, self.out_packets[:12]))
+            self.res.event("rx_last_flags_judged")
+            if last:
+                self.res.bin("rx_last_seen")
         if idx >= self.out_pos + self.out_inflight:
             self.viol(self.classify_out("rx_byte_without_accepted_packet", idx, byte),
                       "rx beat %d (0x%02x) but the host has only had %d bytes accepted (+%d in flight)" % (idx, byte, self.out_pos, self.out_inflight))
@@ -574,7 +614,7 @@ class Session:
             a = rng.choice(["sof", "foreign", "idle"])
         else:
             pending_in = self.in_seen < len(self.src) or (not self.loop and self.tx_sent < len(self.tx_plan))
-            w = [("in", 30 if pending_in else 6), ("notify", 5), ("sof", 4), ("foreign", 6), ("idle", 3)]
+            w = [("in", 30 if pending_in else 6), ("notify", 5), ("sof", 4), ("foreign", 6), ("idle", 3), ("unannounced", 3)]
             if self.out_remaining():
                 w.append(("out", 60 if self.prefer_out else 30))
             if self.in_unacked is not None:
@@ -599,6 +639,8 @@ class Session:
             yield from self.foreign()
         elif a == "foreign_ack":
             yield from self.foreign("in_ack")
+        elif a == "unannounced":
+            yield from self.unannounced_probe()
         else:
             yield from self.host.idle(rng.randint(1, 40))
 
@@ -636,6 +678,7 @@ class Session:
         return True
 
     just_addressed = False
+    connect_at = None
     quiet_bus = False        # no bulk traffic between the packets of a request that resets data toggles: a half-done
                              # bulk transaction across a toggle reset duplicates or loses a packet by protocol design
 
@@ -781,6 +824,7 @@ class Session:
                 return self.viol("configuration_descriptor_wrong", "%s in %s" % ("; ".join(probs), data.hex()))
             self.info = info
             self.res.event("descriptors_validated")
+            self.compare_built_endpoints(info)
         elif dtype == A.DT_STRING:
             if index == 0:
                 if len(data) < 4 or data[0] != len(data) or data[1] != A.DT_STRING or len(data) % 2:
@@ -791,6 +835,86 @@ class Session:
                 if data != ref:
                     return self.viol("string_descriptor_wrong", "string %d is %s, device was built with %r = %s" % (index, data.hex(), self.strings[index], ref.hex()))
             self.res.event("strings_validated")
+
+    def compare_built_endpoints(self, info):
+        """the endpoints announced by the descriptor against the stream endpoint objects the device really built
+        (constructor arguments captured by the harness registry: direction, number, max packet size)"""
+        if self.built is None:
+            return
+        announced = sorted([("in", info["ep_notify"], info["notify_mps"]), ("in", info["ep_in"], self.mps), ("out", info["ep_out"], self.mps)])
+        if sorted(self.built) != announced:
+            return self.viol("descriptor_disagrees_with_built_endpoints", "descriptor announces (direction, number, wMaxPacketSize) %s, the device built %s" % (announced, sorted(self.built)))
+        self.res.event("built_endpoints_compared")
+
+    built = None
+
+    def unannounced_probe(self):
+        """a token for an endpoint number the descriptors do not announce: nobody may answer"""
+        host, rng = self.host, self.rng
+        used_in = {0, self.info["ep_in"], self.info["ep_notify"]}
+        used_out = {0, self.info["ep_out"]}
+        direction = rng.choice(["in", "out"])
+        ep = rng.choice([e for e in range(1, 16) if e not in (used_in if direction == "in" else used_out)])
+        self.step("UNANNOUNCED", direction, ep)
+        self.res.bin("unannounced_endpoint_probe")
+        n0 = len(host.tx_packets)
+        if direction == "in":
+            yield from host.token(U.IN, self.addr, ep)
+        else:
+            yield from host.token(U.OUT, self.addr, ep)
+            yield from host.idle(rng.randint(1, 4))
+            yield from host.data(rng.choice([U.DATA0, U.DATA1]), bytes(rng.randrange(256) for _ in range(rng.randint(0, 8))))
+        yield from host.idle(rng.randint(30, 45))
+        if len(host.tx_packets) > n0:
+            self.viol("unannounced_endpoint_answers", "%s token for endpoint %d (descriptor: notification %d, data in %d, data out %d) answered with %s"
+                      % (direction.upper(), ep, self.info["ep_notify"], self.info["ep_in"], self.info["ep_out"], bytes(host.tx_packets[n0].data).hex()))
+
+    def slc_variant(self):
+        """SET_LINE_CODING-like requests the statement does not pin down (wLength other than 7, other recipients): the
+        device may accept or refuse, but consistently: data ACKed -> DATA1 ZLP status; otherwise STALL at the status IN"""
+        host, rng = self.host, self.rng
+        iface = self.info["comm_interface"] if self.info else 0
+        if rng.random() < 0.7:
+            bm, wl = 0x21, rng.choice([0, 0, 1, 6, 8, 8, 16, 64])
+        else:
+            bm, wl = rng.choice([0x20, 0x22, 0x23]), rng.choice([0, 7, 7])
+        self.step("SLC_VARIANT", "%02x" % bm, wl)
+        self.res.bin("slc_variant_wlength_0" if wl == 0 else "slc_variant_with_data")
+        if not (yield from self.setup_stage(U.setup_bytes(bm, A.SET_LINE_CODING, 0, iface, wl))):
+            return
+        accepted = None
+        if wl:
+            r = yield from host.out_transaction(self.addr, 0, U.DATA1, bytes(rng.randrange(256) for _ in range(wl)))
+            yield from self.gap()
+            if r.get("kind") == "data":
+                return self.viol("slc_variant_inconsistent", "request %02x 20 wLength %d: data packet answered with %s" % (bm, wl, self.show(r)))
+            accepted = self.is_hs(r, U.ACK)
+        r = yield from self.status_in()
+        if self.failed:
+            return
+        ok = self.is_zlp1(r) if accepted else (self.is_hs(r, U.STALL) or (accepted is None and self.is_zlp1(r)))
+        if not ok:
+            return self.viol("slc_variant_inconsistent", "request %02x 20 wLength %d: data stage %s, status IN answered with %s"
+                             % (bm, wl, {None: "absent", True: "ACKed", False: "not ACKed"}[accepted], self.show(r)))
+        self.res.event("slc_variants_judged")
+
+    def reserved_type_request(self):
+        """request type 3 (reserved): the statement says nothing about it - sent, not judged, must not break what follows"""
+        host, rng = self.host, self.rng
+        is_in = rng.random() < 0.4
+        wl = rng.choice([0, 0, 7, 8])
+        bm = (0xE0 if is_in and wl else 0x60) | rng.choice([0, 1, 2])
+        breq = rng.choice([A.SET_LINE_CODING, rng.randrange(256)])
+        self.step("RESERVED", "%02x" % bm, "%02x" % breq, wl)
+        self.res.bin("reserved_type_request")
+        self.res.unjudged += 1
+        if not (yield from self.setup_stage(U.setup_bytes(bm, breq, rng.randrange(0x10000), 0, wl))):
+            return
+        if wl and not bm & 0x80:
+            yield from host.out_transaction(self.addr, 0, U.DATA1, bytes(wl))
+            yield from self.gap()
+        yield from host.in_transaction(self.addr, 0)
+        yield from self.gap()
 
     def set_address(self, new):
         self.step("SET_ADDRESS", new)
@@ -1145,6 +1269,10 @@ class Session:
         r = rng.random()
         if r < 0.3:
             yield from self.set_line_coding()
+        elif r < 0.38:
+            yield from self.slc_variant()
+        elif r < 0.44:
+            yield from self.reserved_type_request()
         elif r < 0.85:
             yield from self.random_refused_request()
         elif r < 0.95:
@@ -1269,19 +1397,35 @@ class Session:
 def run_case(rng, tier, res):
     cfg = draw_config(rng)
     top, dev, utmi = build(cfg)
-    b = Bench(top, domain="usb", freq=60e6, max_cycles=120000)
+    from rv.sim import Registry
+    from luna.gateware.usb.usb2.endpoints.stream import USBStreamInEndpoint, USBStreamOutEndpoint
+    with Registry(USBStreamInEndpoint, USBStreamOutEndpoint) as reg:
+        b = Bench(top, domain="usb", freq=60e6, max_cycles=160000)
+    try:
+        built = [("in", e._endpoint_number, e._max_packet_size) for e in reg.instances[USBStreamInEndpoint]]
+        built += [("out", e._endpoint_number, e._max_packet_size) for e in reg.instances[USBStreamOutEndpoint]]
+    except AttributeError:
+        built = None            # constructor arguments not readable: the comparison is not made (required event stays 0)
     host = UTMIHost(b, utmi, rng, timing="fs12", ready_profile=cfg["ready_profile"], gap_profile=cfg["gap_profile"])
     ses = Session(b, host, rng, res, cfg, top, dev, utmi)
-    b.watch(dev.rx.valid, dev.rx.ready, dev.rx.payload, dev.tx.valid, dev.tx.ready, dev.tx.payload, utmi.term_select)
+    ses.built = built
+    b.watch(dev.rx.last, dev.rx.valid, dev.rx.ready, dev.rx.payload, dev.tx.valid, dev.tx.ready, dev.tx.payload, utmi.term_select)
     res.bin("mps_%d" % cfg["mps"])
     res.bin("mode_" + cfg["mode"])
+    res.bin("import_" + cfg["import_path"])
     res.sig(sorted(cfg.items()), ses.out_packets, ses.out_plan, ses.tx_plan)
     res.desc = {"config": {k: v for k, v in cfg.items()}, "out_packets": ses.out_packets[:20], "tx_bytes": len(ses.tx_plan), "tx_gaps": ses.tx_gap_mode}
 
     def driver():
+        b.set(utmi.line_state, 0b01)
+        if cfg["connect_low_first"]:
+            # `connect` low first: nothing is judged until it rises (the statement is about the connected device)
+            res.bin("connect_low_first")
+            b.set(top.connect, 0)
+            for _ in range(cfg["connect_low_first"]):
+                yield
         init_device_signals(b, top, utmi)
-        if not ses.loop:
-            b.set(dev.tx.valid, 0)
+        ses.connect_at = b.cycle
         yield from ses.run()
 
     b.add_monitor(ses.monitor)
